@@ -204,7 +204,7 @@ func init() {
 			"Close is called while no other call is in flight",
 			"sequentially consistent interleavings at the shims' scheduling points; deviation bounding",
 		},
-		QuickS: 75, ThoroughS: 1500,
+		QuickS: 120, ThoroughS: 1500,
 	}
 }
 
